@@ -2,6 +2,7 @@ import OpusProofs.SilkApi
 import OpusProofs.SilkApiStereo
 import OpusProofs.SilkApiOut
 import OpusProofs.SilkApiWhole
+import OpusProofs.SilkApiAccs2
 /-!
   C01 (decoding is total and memory-safe) — extension slice `SilkApi`: the control layer of the SILK decoder
   (silk/dec_API.c, silk/decoder_set_fs.c, silk/stereo_MS_to_LR.c) inside the model.  Model: OpusModel/SilkApi.lean,
@@ -101,6 +102,19 @@ theorem silkDecode_contract {api : Int} {d : Dec} {a : Args} {o : Orc} (hI : Inv
     Inv api (silkDecode d a o).d ∧ (silkDecode d a o).d.nChannelsInternal ≤ 2 ∧
     (silkDecode d a o).out.length = ((silkDecode d a o).nSamplesOut * a.nChannelsAPI).toNat :=
   silkDecode_ok hI hN hA hO
+
+/-- Memory safety of the whole call: under the same hypotheses EVERY access silk_Decode records (Run.ac) is in bounds —
+    VAD_flags / LBRR_flags indices (:231-:244, :282-:287, :322, :336) inside their 3 elements, silk_LBRR_flags_iCDF_ptr inside
+    its 2, mult_tab (:416) inside its 3; the silk_decode_frame output, memset, history copies, silk_stereo_MS_to_LR extents and
+    resampler inputs (+1 / +2 offsets) inside samplesOut1_tmp_storage1[nChannelsInternal*(frame_length+2)]; each resampler
+    output inside samplesOut2_tmp[nSamplesOut] with the 1 ms precondition of resampler.c:184 (also for the stereo->mono call on
+    channel 1's resampler); every strided samplesOut write (stride nChannelsAPI, offsets 0 / 1, incl. the mono->stereo and
+    stereo->mono duplications) inside [0, nSamplesOut*nChannelsAPI). -/
+theorem silkDecode_accesses_in_bounds {api : Int} {d : Dec} {a : Args} {o : Orc} (hI : Inv api d) (hN : d.nChannelsInternal ≤ 2)
+    (hA : ArgsOk api d a) (hO : CallOrcOk api d a o) : ∀ x ∈ (silkDecode d a o).ac, x.InBounds :=
+  silkDecode_accs hI hN hA hO
+
+example : (silkDecode {} ⟨1, 1, 8000, 8000, 10, 1, 1⟩ { frame0 := { samples := List.replicate 80 0 }, rs := [(0, List.replicate 80 0)] }).ac.length = 8 := by decide
 
 /-- ... for every call history: starting from any state satisfying the invariant (e.g. after silk_InitDecoder on the
     zero-filled OpusDecoder), after any sequence of silk_Decode calls (each with arguments legal for the state it meets and
